@@ -189,7 +189,7 @@ KNOWN = {
 def plan(tier):
     if tier == "quick":
         return [{"part": "machine", "shards": 16, "budget": {"n_examples": 300, "steps": 25}}]
-    return [{"part": "machine", "shards": 16, "budget": {"n_examples": 2000, "steps": 50}}]
+    return [{"part": "machine", "shards": 16, "budget": {"n_examples": 4000, "steps": 50}}]
 
 
 def run_part(part, seed, shard, nshards, budget):
